@@ -26,7 +26,7 @@ type Config struct {
 
 var remoteAddrs = []string{
 	"git::https://example.com/p0.git",
-	"git::https://example.com/p1.git", // same length as p0: an equally long alias when it is a clone
+	"git::https://Example.com/p1.git", // same length as p0: an equally long alias when it is a clone; upper-case letter in the host
 	"https://example.com/dl%20x/p1.tgz", // a path that needs escaping
 	"git::ssh://git.example.com/org/p2.git?ref=v1",
 	"https://example.com/dl/p3?archive=tgz",
@@ -267,11 +267,22 @@ func genExtra(t *rapid.T, i int) fsx.Tree {
 		name := fmt.Sprintf("extra%d", j)
 		if rapid.IntRange(0, 3).Draw(t, "awkwardname") == 0 {
 			// names that merely contain dots, spaces or non-ASCII letters
-			name = rapid.SampledFrom([]string{"..data", "v1..v2.diff", "...", "with space", "-dash", "ünï", "..", "a..", ".hidden", "back\\slash", "tmpl\\esc.tmpl"}).Draw(t, "awkward") + fmt.Sprint(j)
+			name = rapid.SampledFrom([]string{"..data", "v1..v2.diff", "...", "with space", "-dash", "ünï", "..", "a..", ".hidden", "back\\slash", "tmpl\\esc.tmpl", ".DS_Store", "._main.tf"}).Draw(t, "awkward") + fmt.Sprint(j)
 		}
 		switch rapid.IntRange(0, 26).Draw(t, "extrakind") % 9 {
 		case 0:
-			tr = append(tr, fsx.Node{Path: "docs/" + name + ".md", Kind: "file", Content: fmt.Sprintf("doc %d %d", i, j), Mode: 0644, Sec: 1500000100})
+			content := fmt.Sprintf("doc %d %d", i, j)
+			switch rapid.IntRange(0, 7).Draw(t, "zeros") {
+			case 0:
+				content = strings.Repeat("\x00", 16)
+			case 1:
+				content += strings.Repeat("x", 40000) + strings.Repeat("\x00", 30000)
+			}
+			tr = append(tr, fsx.Node{Path: "docs/" + name + ".md", Kind: "file", Content: content, Mode: 0644, Sec: 1500000100})
+			if name == ".DS_Store"+fmt.Sprint(j) || name == "._main.tf"+fmt.Sprint(j) {
+				// the name exactly, too
+				tr = append(tr, fsx.Node{Path: "docs/" + strings.TrimSuffix(name, fmt.Sprint(j)), Kind: "file", Content: "meta", Mode: 0644, Sec: 1500000101})
+			}
 		case 1:
 			tr = append(tr, fsx.Node{Path: "bin/" + name, Kind: "file", Content: "#!/bin/sh\n", Mode: 0755, Sec: 1500000200})
 		case 2:
